@@ -1,3 +1,166 @@
 import Cppcms.Common
-/-! Line-protocol driver for C09 (stub: model not written yet). -/
-def main : IO Unit := Cppcms.lineLoop () (fun s _ => (s, "unimplemented"))
+import Cppcms.C07.Proto
+import Cppcms.C09.Model
+import Cppcms.C09.Spec
+/-!
+`c09_model`: line-protocol driver for C09.
+
+Judge of recorded histories (the property predicate `Spec.LinearizedBy`, executable form
+`Spec.checkLin`, evaluated on what the real code did):
+
+    new thread <limit>
+    R <tid> <idx> <inv> <res|-> <hook stamp|-> <result words> ; <op words as in C07's protocol>
+    …
+    end            -> `1` or `0 <clause that fails> [detail]`
+    endfast        -> same without the (cubic) real-time clause and for long histories
+
+`order` = the operations that carry a hook stamp, sorted by it; the claimed sequential answers are
+those of `C07.step` along that order (so `legal` holds by construction and is still evaluated);
+each recorded result must equal the claimed answer — trigger sets are compared as sets
+(`std::set` iteration order vs. the container's list order: the recorded list is re-ordered to
+the model's when it is a duplicate-free permutation of it).  Additionally every hook stamp must
+lie strictly between the operation's invocation and response stamps.
+
+Simulation of the interleaving model itself (used to cross-check recorded event orders):
+
+    sim <limit> <nthreads>
+    P <tid> <op words>            (append an operation to thread tid's program)
+    go <tid> <tid> …              (run that schedule)  -> `clock=<n> log=<n> done=<n>`
+    dump                          -> one `tid idx inv res lin? result` group per completed operation
+-/
+open Cppcms Cppcms.C07 Cppcms.C09
+
+structure JRec where
+  r : Rec
+  lin : Option Nat
+
+structure DState where
+  s0 : State := State.init 0
+  recs : List JRec := []          -- newest first
+  sim : Option Config := none
+  progs : List (List Op) := []
+
+def parseRet (w : List String) : Option Ret :=
+  match w with
+  | ["miss"] => some (.ok .miss)
+  | ["ok"] => some (.ok .done)
+  | ["stats", k, t] => match k.toNat?, t.toNat? with
+    | some k, some t => some (.ok (.stats k t))
+    | _, _ => none
+  | ["hit", v, ts, d, g] =>
+    match parseHex v, Proto.parseTrigs ts, d.toInt?, g.toNat? with
+    | some v, some ts, some d, some g => some (.ok (.hit v ts d (UInt64.ofNat g)))
+    | _, _, _, _ => none
+  | ["undefined"] => some .undefined
+  | _ => none
+
+def retStr : Ret → String
+  | .ok (.stats k t) => s!"stats {k} {t}"
+  | .ok o => Proto.outStr o
+  | .undefined => "undefined"
+
+/-- compare trigger sets as sets: re-order the recorded list to the model's -/
+def alignRet (impl : Ret) (model : Out) : Ret :=
+  match impl, model with
+  | .ok (.hit v ts d g), .hit _ ts' _ _ =>
+    if Proto.sameSet ts ts' && Proto.nodupB ts then .ok (.hit v ts' d g) else impl
+  | _, _ => impl
+
+def optNat (w : String) : Option (Option Nat) := if w == "-" then some none else w.toNat?.map some
+
+def judge (st : DState) (fast : Bool) : String :=
+  let recs := st.recs.reverse
+  let withLin := recs.filterMap fun j => j.lin.map fun l => (l, j.r)
+  let sorted := withLin.mergeSort fun a b => a.1 ≤ b.1
+  let outs := seqOuts st.s0 (sorted.map (·.2.op))
+  let order : List Lin := (sorted.zip outs).map fun ((l, r), o) => ⟨r.tid, r.idx, r.op, l, o⟩
+  -- hook stamp strictly inside the call
+  let badStamp := recs.find? fun j =>
+    match j.lin, j.r.resp with
+    | some l, some (t, _) => !(j.r.inv < l && l < t)
+    | some l, none => !(j.r.inv < l)
+    | none, some _ => true          -- completed without the hook firing
+    | none, none => false
+  match badStamp with
+  | some j => s!"0 hook-stamp-not-inside-call tid={j.r.tid} idx={j.r.idx}"
+  | none =>
+    let aligned : List Rec := recs.map fun j =>
+      match j.r.resp, order.find? (fun e => e.tid == j.r.tid && e.idx == j.r.idx) with
+      | some (t, ret), some e => { j.r with resp := some (t, alignRet ret e.out) }
+      | _, _ => j.r
+    let verdict :=
+      if fast then
+        (if !nodupB (order.map fun e => (e.tid, e.idx)) then some "operation-linearized-twice"
+         else if !aligned.all (completeInB order) then some "completed-operation-missing-or-wrong-answer"
+         else if seqOuts st.s0 (order.map (·.op)) != order.map (·.out) then some "not-a-sequential-execution"
+         else none)
+      else checkLin st.s0 aligned order
+    match verdict with
+    | none => "1"
+    | some why =>
+      -- name the first completed operation whose answer differs
+      let bad := aligned.find? fun r => !completeInB order r
+      match bad with
+      | some r =>
+        let exp := (order.find? fun e => e.tid == r.tid && e.idx == r.idx).map fun e => retStr (.ok e.out)
+        s!"0 {why} tid={r.tid} idx={r.idx} got={(r.resp.map fun p => retStr p.2).getD "-"} sequential={exp.getD "-"}"
+      | none => s!"0 {why}"
+
+def simSummary (c : Config) : String :=
+  s!"clock={c.clock} log={c.log.length} done={(c.threads.map fun th => th.done.length).sum} alldone={boolStr c.allDone}"
+
+def stepLine (st : DState) (line : String) : DState × String :=
+  match words line with
+  | ["new", "thread", limit] =>
+    match limit.toNat? with
+    | some l => ({ s0 := State.init l none }, "ok")
+    | none => (st, "bad-op")
+  | "R" :: tid :: idx :: inv :: res :: lin :: rest =>
+    let (resw, opw) := Proto.splitAt ";" rest
+    match tid.toNat?, idx.toNat?, inv.toNat?, optNat res, optNat lin, Proto.parseOp opw with
+    | some tid, some idx, some inv, some res, some lin, some (op, _) =>
+      let resp : Option (Option (Nat × Ret)) :=
+        match res with
+        | none => some none
+        | some t => (parseRet resw).map fun r => some (t, r)
+      (match resp with
+       | some resp => ({ st with recs := ⟨⟨tid, idx, op, inv, resp⟩, lin⟩ :: st.recs }, "ok")
+       | none => (st, "bad-op"))
+    | _, _, _, _, _, _ => (st, "bad-op")
+  | ["end"] => ({ st with recs := [] }, judge st false)
+  | ["endfast"] => ({ st with recs := [] }, judge st true)
+  | ["sim", limit, n] =>
+    match limit.toNat?, n.toNat? with
+    | some l, some n => ({ st with s0 := State.init l none, progs := List.replicate n [], sim := none }, "ok")
+    | _, _ => (st, "bad-op")
+  | "P" :: tid :: opw =>
+    match tid.toNat?, Proto.parseOp opw with
+    | some t, some (op, _) =>
+      if t < st.progs.length then ({ st with progs := st.progs.modify t (· ++ [op]) }, "ok") else (st, "bad-op")
+    | _, _ => (st, "bad-op")
+  | "go" :: sched =>
+    match sched.mapM String.toNat? with
+    | some sched =>
+      let c0 := st.sim.getD (Config.init st.s0 st.progs)
+      let c := run c0 sched
+      ({ st with sim := some c }, simSummary c)
+    | none => (st, "bad-op")
+  | ["dump"] =>
+    match st.sim with
+    | none => (st, "bad-op")
+    | some c =>
+      let recs := c.history
+      let one (r : Rec) : String :=
+        let lin := (c.log.find? fun e => e.tid == r.tid && e.idx == r.idx).map fun e => toString e.stamp
+        match r.resp with
+        | some (t, ret) => s!"{r.tid} {r.idx} {r.inv} {t} {lin.getD "-"} {retStr ret}"
+        | none => s!"{r.tid} {r.idx} {r.inv} - {lin.getD "-"} -"
+      (st, " ; ".intercalate (recs.map one))
+  | ["simjudge"] =>
+    -- the model's own history judged by the same predicate (sanity of the model; always 1 by `Props.linearizable`)
+    match st.sim with
+    | none => (st, "bad-op")
+    | some c => (st, match checkLin st.s0 c.history c.order with | none => "1" | some w => "0 " ++ w)
+  | _ => (st, "bad-op")
+
+def main : IO Unit := lineLoop ({} : DState) stepLine
